@@ -859,9 +859,9 @@ def memory_findings():
     ver = pv.state[ids.get(oB)]
     decl = [l for l in cap.text.splitlines() if " o" in l and "reg" in l][:1]
     out.append(("C01-output-reg-no-initialiser",
-                "`output reg` ports are declared without `= reset` (only internal regs get the initialiser): a port "
-                "register with reset value 9 powers up as 9 in the simulator and uninitialised (0 after synthesis, X in "
-                "a Verilog simulator) in the text until the first reset",
+                "`output reg` ports were declared without `= reset` (only internal regs got the initialiser): a port "
+                "register with reset value 9 powers up as 9 in the simulator and was uninitialised (0 after synthesis, "
+                "X in a Verilog simulator) in the text until the first reset; since the fix it carries `= 4'd9`",
                 sim != ver, {"simulator": sim, "verilog": ver, "declaration": decl}))
     return out
 
@@ -1043,7 +1043,8 @@ def lowering_drop(ctx, n_cases, dis):
     for (dropped, st, length, node), ans in zip(metas, ctx.lean.call_batch(lines)):
         ndrop += 1 if dropped else 0
         if ans.strip() != ("1" if dropped else "0"):
-            dis.append(Dis("lowering-drop", start=st, length=length, node=repr(node)[:200], real_dropped=dropped,
+            ids = SigIds()
+            dis.append(Dis("lowering-drop", start=st, length=length, node=" ".join(ser_expr(node, ids))[:200], real_dropped=dropped,
                            lean=ans[:50], what="_ComplexSliceLowerer.visit_Slice drop decision differs from Lean dropsSlice"))
             if len(dis) > 5:
                 break
@@ -1394,6 +1395,54 @@ def oracle_modules(rng, n_mod, cycles):
     return n, None
 
 
+def oracle_core(rng, name, mk, cycles=600):
+    """Real core: the real simulator on the original design vs the golden reading (PyVSim) of the text the real
+    convert emitted, ports, every cycle.  (Not part of `correspond`: cores with a listed, reachable intermediate-
+    overflow site diverge legitimately; used by `search` to turn a NEW site into a concrete failing input.)"""
+    from migen.fhdl.tools import list_targets, list_special_ios
+    from netlist import Netlist
+    fA, iosA, cdsA = L.prepare(mk())
+    fB, iosB, cdsB = L.prepare(mk())
+    cap = L.convert_capture(fB, iosB)
+    sigs = L.module_signals(cap)
+    ids = SigIds()
+    for s_ in sigs:
+        ids.get(s_)
+    name_ids = {cap.ns.get_name(s_): ids.get(s_) for s_ in sigs}
+    mt = L.parse_module(cap.text, name_ids)
+    if mt.unsupported:
+        return None
+    pv = L.PyVSim(mt, name_ids)
+    nl = Netlist(fA, clocks=tuple(cdsA))
+    f = cap.f
+    targets = list_targets(f) | list_special_ios(f, ins=False, outs=True, inouts=True)
+    clks = [cd.clk for cd in f.clock_domains]
+    rsts = [cd.rst for cd in f.clock_domains if cd.rst is not None]
+    in_idx = [k for k, s_ in enumerate(iosB) if s_ not in targets and not any(s_ is c for c in clks)]
+    out_idx = [k for k, s_ in enumerate(iosB) if s_ in targets]
+    prev, trace = None, []
+    for t in range(cycles):
+        vals = stimulus(rng, [iosB[k] for k in in_idx], rsts, prev, t)
+        prev = vals
+        trace.append(vals)
+        for k, v in zip(in_idx, vals):
+            nl.set(iosA[k], v)
+            pv.state[ids.get(iosB[k])] = v & ((1 << iosB[k].nbits) - 1)
+        nl.settle()
+        pv.settle()
+        for k in out_idx:
+            a, b = nl.getu(iosA[k]), pv.state[ids.get(iosB[k])]
+            if a != b:
+                return {"oracle": "golden-module (real core)", "module": name, "cycle": t, "port": cap.ns.get_name(iosB[k]),
+                        "simulator": a, "verilog": b, "inputs": [cap.ns.get_name(iosB[j]) for j in in_idx],
+                        "trace": trace[-8:],
+                        "what": "the real simulator on the core and the IEEE-1364 reading of the text emitted for it "
+                                "differ on a port"}
+        nl.tick(tuple(cdsA))
+        pv.tick({ids.get(c) for c in clks})
+    return None
+
+
 def search(ctx, disagreements, proof_info):
     """Failing-input search with oracles that do not use the Lean model: (1) the golden reading of the real
     text vs the real Evaluator on expressions / modules without overflow sites; (2) if that finds nothing, a
@@ -1412,6 +1461,18 @@ def search(ctx, disagreements, proof_info):
                 break
     if bad is not None:
         return bad
+    # a new overflow site in a real core: look for a reachable divergence on that core
+    builders = dict(core_builders("thorough"))
+    for name in sorted({d.to_json().get("module") for d in disagreements if d.to_json()["kind"] == "new-overflow-site"}):
+        if name in builders:
+            try:
+                bad = oracle_core(rng, name, builders[name])
+            except Exception as ex:
+                bad = None
+            if bad is not None:
+                bad["new_sites"] = [d.to_json()["site"] for d in disagreements
+                                    if d.to_json()["kind"] == "new-overflow-site" and d.to_json().get("module") == name][:4]
+                return bad
     for d in disagreements:
         j = d.to_json()
         if j["kind"] in ("lowering",):
